@@ -14,7 +14,7 @@ classes (2) observed for it; those are the open findings of known_findings.d/C04
 import os, sys, random, collections, json, hashlib
 import vlib, progen, langlib, lang_findings
 import tc_common as T
-import c02, c05, c04_matrix, c04_ident, c04_tails
+import c02, c05, c04_matrix, c04_ident, c04_tails, scope_witnesses
 
 
 def hand_witnesses():
@@ -114,7 +114,9 @@ def run(ck):
         hw = hand_witnesses()
         rw = reject_witnesses()
         lw = {k: T.to_nano(p) for k, p in lang_findings.WITNESSES.items()}
+        sw = scope_witnesses.ok()          # well-formed name re-use across functions / blocks: accepted, and both backends print the same
         allw = [('c04:' + k, s, 'ill') for k, s in sorted(hw.items())] + [('c04:' + k, s, 'ok') for k, s in sorted(rw.items())] + \
+               [('c04:ok:' + k, s, 'ok') for k, s in sorted(sw.items())] + \
                [(k, s, 'ok') for k, s in sorted(lw.items())]
         verd = T.probe_tc(probe, [s for _, s, _ in allw])
         def onew(t):
@@ -122,6 +124,8 @@ def run(ck):
             if v != 'accept':
                 return key, src, ref, v, err, None, {}
             obs, fails = backends(b, wd, 'w' + hashlib.md5(key.encode()).hexdigest()[:8], src)
+            if key.startswith('c04:ok:scope:'):
+                fails = c04_tails.classify(obs)        # also: the two backends must print the same
             return key, src, ref, v, err, obs, fails
         for key, src, ref, v, err, obs, fails in langlib.pmap(onew, list(zip(allw, verd))):
             ck.count('witness:' + key, True)
@@ -148,7 +152,8 @@ def run(ck):
         progs = handwritten_programs()
         nprog += len(progs)
         for i in range(nprog - len(progs)):
-            g = progen.Gen(random.Random(ck.seed * 7927 + i), cfg)
+            cfg_i = cfg if i % 3 else progen.Cfg(**dict(cfg.__dict__, reuse_names_across_fns=True))     # a third of the programs re-use names across functions
+            g = progen.Gen(random.Random(ck.seed * 7927 + i), cfg_i)
             progs.append(g.gen_program())
             for f in g.feat:
                 ck.extra['features'][f] += 1
@@ -268,7 +273,7 @@ def replay(ck, d):
     print('type_check:', v, T.diag_titles(err))
     with langlib.Work('replay') as wd:
         obs, fails = backends(b, wd, 'r', src)
-    if 'tail' in d:
+    if 'tail' in d or str(d.get('key', '')).startswith('c04:ok:scope:'):
         fails = c04_tails.classify(obs)
     elif 'construct' in d or 'spelling' in d:
         fails = c04_matrix.classify(obs)[0]
